@@ -257,7 +257,7 @@ def check_pair(obs, y1, y2, d, tol_w, tol_a, what):
         if not 0.0 <= w <= 1.0:
             return f"APH weight {w} outside [0, 1] ({what})"
     if circ_diff(obs["hb_est"], obs["hb_est_map"]) > 2 * tol_a or circ_diff(obs["hb_gt"], obs["hb_gt_map"]) > 2 * tol_a:
-        return f"BEV heading depends on the frame: {obs['hb_est']} vs {obs['hb_est_map']} ({what})"
+        return f"BEV heading depends on the frame: estimate {obs['hb_est']} vs {obs['hb_est_map']}, ground truth {obs['hb_gt']} vs {obs['hb_gt_map']} ({what})"
     # signed error: wrap(yaw_gt - yaw_est)
     true_err = math.atan2(math.sin(y2 - y1), math.cos(y2 - y1))
     for k, sgn in (("err_ego", 1), ("err_ego_swapped", -1), ("err_ego_flip", 1), ("err_map", 1), ("err_map_swapped", -1)):
